@@ -1,5 +1,6 @@
 import Tftp.Model.Client
 import Tftp.Props.C04
+import Tftp.Lemmas.Net
 /-!
 # C14 — Bundled client and server interoperate byte-exactly for every option choice
 
@@ -66,6 +67,30 @@ theorem c14_refusal_creates_nothing (c : ClientCfg) (code : ErrorCode) (msg : By
 theorem c14_upload_plain_ack_defaults (c : ClientCfg) (h : c.upload = true) (n : Nat) :
     clientOnReply c (.ack n) = .transfer { c with blocksize := 512, windowsize := 1, timeoutS := 5 } false := by
   simp [clientOnReply, h, Gen.clientDefaultBlocksize, Gen.clientDefaultWindowsize, Gen.clientDefaultTimeoutS]
+
+/-- the sender and receiver configurations the two ends derive from one negotiated option set -/
+def loopSender (b w timeout : Nat) : SCfg := { b := b, w := w, timeout := timeout, rep := 1 }
+def loopReceiver (b w : Nat) (clean : Bool) : RCfg := { b := b, w := w, rep := 1, cleanOnError := clean }
+
+/-- **fault-free transfer**: for every file (any length: empty, exact multiples, more than 65535 blocks),
+every block size ≥ 1 (so all of 8..65464) and every window size 1..65535, the sending worker and the
+receiving worker — the same code on the client and on the server side — connected through loss-free FIFO
+queues end both successfully with the receiver's file byte-identical to the sender's, and no time-out is
+ever needed. Proved by an inductive invariant over the scheduler steps of `netRun` (the receiver is `j`
+blocks into the sender's window / the window's acknowledgement is in flight), not by bounded search. -/
+theorem c14_fault_free_transfer (f : Bytes) (b w timeout : Nat) (clean : Bool) (hb : 0 < b) (hw1 : 1 ≤ w)
+    (hw : w < 65536) :
+    ∃ fuel,
+      (netRun (loopSender b w timeout) (loopReceiver b w clean) Faults.none fuel
+        (netInit (loopSender b w timeout) (loopReceiver b w clean) Faults.none f)).s.status = .ok ∧
+      (netRun (loopSender b w timeout) (loopReceiver b w clean) Faults.none fuel
+        (netInit (loopSender b w timeout) (loopReceiver b w clean) Faults.none f)).r.status = .ok ∧
+      (netRun (loopSender b w timeout) (loopReceiver b w clean) Faults.none fuel
+        (netInit (loopSender b w timeout) (loopReceiver b w clean) Faults.none f)).r.win.file.content = f := by
+  have lc : LoopCfg (loopSender b w timeout) (loopReceiver b w clean) :=
+    ⟨hb, hw1, hw, rfl, rfl, rfl, rfl⟩
+  obtain ⟨fuel, hd⟩ := fault_free_transfer _ _ lc f
+  exact ⟨fuel, hd.sok, hd.rok, hd.file⟩
 
 /-! non-vacuity -/
 example : fileName [115, 117, 98, 47, 102, 46, 98] = some [102, 46, 98] := by decide   -- "sub/f.b" -> "f.b"
